@@ -1,7 +1,11 @@
 (* Props/C18.v — Update-attempt bookkeeping spans attempts and reboots.
-   PARTIAL at the level of theorems: the waited-for-reboot computation is proved below; first-seen time, the
-   install-attempt counter, "finish time committed before reboot" and "reported exactly once" are decided by trace
-   equality between model and implementation on the storage/metric/installer projection (proj_c18). *)
+   PARTIAL at the level of theorems: the waited-for-reboot computation and the saturating counter are proved below.
+   The rules about first-seen time, the install-attempt counter, "finish time committed before the reboot question" and
+   "reported exactly once, then cleared" are checked on every implementation trace by the executable monitor step18
+   (Model/Monitors18.v), which simulates the storage view the machine reads, and by trace equality between model and
+   implementation on the storage / metric / installer projection.  That every MODEL trace is accepted by step18 is not
+   proved: the monitor's rules depend on values read back from storage, and the trace-Hoare framework (Proofs/Monitor.v)
+   speaks about the monitor's state only, not about the environment's store (DESIGN.md, "what is not proved"). *)
 Require Import Verif.Model.Time Verif.Base.Bytes Verif.Model.Env Verif.Model.SM Verif.Proofs.SMPure.
 Open Scope Z_scope.
 
@@ -29,3 +33,26 @@ Theorem C18_counter_saturates : forall z, i64_min <= z <= i64_max -> z <= sat_in
 Proof. intros z H. unfold sat_inc_i64. destruct (z <? i64_max) eqn:E; [apply Z.ltb_lt in E|apply Z.ltb_ge in E]; unfold i64_max, i64_min in *; lia. Qed.
 
 Print Assumptions C18_waited_for_reboot_value.
+
+(* the run-time monitor is not vacuous: it accepts a correct failed-then-counted install and rejects the variants *)
+Require Import Verif.Model.Monitors Verif.Model.Monitors18 Verif.Proofs.Monitor Verif.Model.Proto.
+Section Examples.
+  Let q0 : q18 := {| m18 := [(K_FAILED_INSTALLS, VInt 2)]; osver18 := s2b "1.0"; sysid18 := Some (s2b "a"); clk18 := None; should18 := false; fin018 := 0;
+                     start18 := None; rep18 := false; todo18 := []; doc18 := None; planw18 := false; fs18 := None; perf18 := false; fin18 := 0%N;
+                     attm18 := None; attw18 := None |}.
+  Let failed := [{| ar_id := s2b "a"; ar_cohort := cohort_none; ar_uc := None; ar_result := AInstallPlanExecutionError |};
+                 {| ar_id := s2b "b"; ar_cohort := cohort_none; ar_uc := None; ar_result := AUpdated |}].
+  Example C18_monitor_accepts :
+    accepts step18 q0 [AEvent (EvState (CheckingForUpdates ScheduledTask)); AMetric (MAttemptsToSuccessfulInstall 3 false);
+                       AStore (SSetInt K_FAILED_INSTALLS 3) true; AEvent (EvResult (inr failed))] = true.
+  Proof. vm_compute. reflexivity. Qed.
+  (* a failed app followed by an installed one counted as a success; the wrong count; the counter not written; not reported at all *)
+  Example C18_monitor_rejects :
+    accepts step18 q0 [AEvent (EvState (CheckingForUpdates ScheduledTask)); AMetric (MAttemptsToSuccessfulInstall 3 true);
+                       AStore (SRemove K_FAILED_INSTALLS) true; AEvent (EvResult (inr failed))] = false
+    /\ accepts step18 q0 [AEvent (EvState (CheckingForUpdates ScheduledTask)); AMetric (MAttemptsToSuccessfulInstall 1 false)] = false
+    /\ accepts step18 q0 [AEvent (EvState (CheckingForUpdates ScheduledTask)); AMetric (MAttemptsToSuccessfulInstall 3 false);
+                          AEvent (EvResult (inr failed))] = false
+    /\ accepts step18 q0 [AEvent (EvState (CheckingForUpdates ScheduledTask)); AEvent (EvResult (inr failed))] = false.
+  Proof. vm_compute. repeat split; reflexivity. Qed.
+End Examples.
